@@ -12,7 +12,7 @@ RULE = ("programs = `const` items invoking str_concat! (over &[&str] and &[char]
         "str_join! (str and char separators: empty, 1-, 2-, 3-, 4-byte, multi-char; literal or named const), string::from_iter! "
         "(DSL chains yielding &str / &&str / char incl. flat_map, filter, map, rev, char ranges) and slice_concat! (u8, u16, &str, "
         "char elements, empty inner slices, empty list) with 0..=4 pieces of <= 3 chars over {a,é,漢,😀,NUL} incl. empty pieces; "
-        "oracle = the std expression on the same constants compared at run time (plus: a program that fails const evaluation "
+        "plus the CStr constructors / views evaluated in const items on byte strings with and without interior / trailing nul (error paths included); oracle = the std expression on the same constants compared at run time (plus: a program that fails const evaluation "
         "while its std twin compiles is a violation); non-trivial = >= 2 pieces with a multi-byte piece or separator or an empty "
         "piece, counted per distinct program")
 
@@ -66,7 +66,22 @@ def gen(rng, i):
 
 
 def gen_plain(rng, i):
-    kind = rng.choice(["concat_str", "concat_str", "concat_char", "join", "join", "join", "from_iter", "from_iter", "slice_concat", "slice_concat"])
+    kind = rng.choice(["concat_str", "concat_str", "concat_char", "join", "join", "join", "from_iter", "from_iter", "slice_concat", "slice_concat", "cstr", "cstr"])
+    if kind == "cstr":
+        # the CStr constructors and views under const evaluation, error paths included: (with_nul ok?, until_nul ok?,
+        # length of to_bytes, length of to_bytes_with_nul, to_str ok?) as one constant
+        n = rng.choice([0, 1, 2, 3, 4, 5, 6, 9])
+        bs = [rng.choice([0, 0, 97, 98, 0xff, 0xc3, 0xa9]) for _ in range(n)]
+        if rng.random() < 0.5 and bs:
+            bs[-1] = 0
+        blit = "&[%s]" % ", ".join("%du8" % b for b in bs) if bs else "&[0u8; 0]"
+        decl = "const B%d: &[u8] = %s;" % (i, blit)
+        kexpr = ("{ use konst::ffi::cstr as kc; let w = kc::from_bytes_with_nul(B%d); let u = kc::from_bytes_until_nul(B%d); "
+                 "(w.is_ok(), u.is_ok(), match u { Ok(c) => (kc::to_bytes(c).len(), kc::to_bytes_with_nul(c).len(), kc::to_str(c).is_ok()), Err(_) => (usize::MAX, usize::MAX, false) }) }" % (i, i))
+        oexpr = ("{ use core::ffi::CStr; let w = CStr::from_bytes_with_nul(B%d); let u = CStr::from_bytes_until_nul(B%d); "
+                 "(w.is_ok(), u.is_ok(), match u { Ok(c) => (c.to_bytes().len(), c.to_bytes_with_nul().len(), c.to_str().is_ok()), Err(_) => (usize::MAX, usize::MAX, false) }) }" % (i, i))
+        interior = 0 in bs[:-1] if bs else False
+        return decl, "(bool, bool, (usize, usize, bool))", kexpr, oexpr, interior or (bs and bs[-1] != 0), {"kind": "cstr", "bytes": bs}
     k = rng.randint(0, 4)
     pieces = [piece(rng) for _ in range(k)]
     nt = len(pieces) >= 2 and (any(not p.isascii() for p in pieces) or any(p == "" for p in pieces))
@@ -181,6 +196,8 @@ def gen_plain(rng, i):
 
 def block(i, g):
     decl, ty, kexpr, oexpr, nt, desc = g
+    if ty.startswith("("):
+        return "    { %s const K: %s = %s; let o = %s; if K != o { println!(\"FAIL %d konst={:?} std={:?}\", K, o); } }" % (decl, ty, kexpr, oexpr, i)
     return "    { %s const K: %s = %s; let o = %s; if K != &o[..] { println!(\"FAIL %d konst={:?} std={:?}\", K, o); } }" % (decl, ty, kexpr, oexpr, i)
 
 
